@@ -1399,6 +1399,10 @@ def _is_c_exclusion(text, truth):
     m = re.fullmatch(r"(.+\.c_format_spec)\[-1:?\] (==|!=) 'c'", text)
     if m:
         return (m.group(2) == '!=') == truth
+    m = re.fullmatch(r"(.+\.c_format_spec) (==|!=) 'c'", text)
+    if m:
+        # the WHOLE spec compared with 'c': '5c', '-3c' ... are character conversions as well, so this never establishes "not a character"
+        return False
     m = re.fullmatch(r"'c' (in|not in) (.+\.c_format_spec)(\[-1:?\])?", text)
     if m and m.group(3):
         return (m.group(1) == 'not in') == truth
